@@ -161,4 +161,12 @@ var targets = []Target{
 		Mode:   "abs",
 		Funcs:  []string{"BinaryProtocol.WriteBool", "BinaryProtocol.WriteStructEnd", "BinaryProtocol.WriteListEnd", "BinaryProtocol.WriteMapEnd"},
 	},
+	{
+		// C06 / C07 / C08 / C10: skipping one wire value (classic mode, state threaded; callees in Gen_protobinary / Gen_protowire)
+		Module:   "Gen_protoskip",
+		Dir:      "proto/binary",
+		Requires: []string{"Gen_protowire", "Gen_proto", "Gen_protobinary"},
+		State:    map[string][]string{"BinaryProtocol": {"Buf", "Read"}},
+		Funcs:    []string{"BinaryProtocol.SkipFixed32Type", "BinaryProtocol.SkipFixed64Type", "BinaryProtocol.SkipBytesType", "BinaryProtocol.Skip"},
+	},
 }
